@@ -26,6 +26,9 @@ from pptx.util import Emu, Pt
 
 BAD = {"outside-bound", "wrong-type", "wrong-enum", "no-xml-member"}
 TRIVIAL = {"member", "interior", "random"}
+# an empty element of these (no attribute, no child) says the same as its absence (schema: everything in it is optional, the
+# attribute defaults are the getters' defaults); a rejected assignment that leaves only such an element behind changed nothing
+NEUTRAL_EMPTY = ("a:pPr", "a:ln", "a:srcRect", "c:gapWidth", "c:overlap", "c:legendPos")
 NOTDOC = object()   # None is not documented for assignment
 NOPRIME = object()  # do not assign anything before the value under test
 RESYNC = object()   # coupling result: reading is documented to change, to an unspecified value
